@@ -40,6 +40,7 @@ fn handler(op: &str) -> Option<Handler> {
         "PNU" => Some(ops_types::pnu_handler),
         "AIT" => Some(ops_types::ait_handler),
         "MIT" => Some(ops_types::mit_handler),
+        "EWM" => Some(ops_sink::ewm_handler),
         "SINK" => Some(ops_sink::sink_handler),
         "SINKE" => Some(ops_sink::sinke_handler),
         "IANA" => Some(ops_iana::iana_handler),
